@@ -283,8 +283,8 @@ def c17_corrupt(recs, seed):
     rnd = random.Random(seed ^ 0xC17)
     out = []
 
-    def real(e):      # an event that counts (label definitions do not)
-        return not (e["lvl"] == "code" and e["ev"] == "visit_last_label")
+    def real(e):      # an event that counts (label definitions do not; local variable rows count per table and flag, left alone here)
+        return not (e["lvl"] == "code" and e["ev"] in ("visit_last_label", "visit_local_variables"))
 
     def add(r, fn):
         c = copy.deepcopy(r)
